@@ -1,0 +1,25 @@
+//go:build verif
+
+package server
+
+import "time"
+
+// Accessors for the C15 (server plugin chain) correspondence harness.  Compiled only with the
+// build tag verif.
+
+// VerifC15LastPing returns ctl.lastPing of the session mapped to runID (zero time if none):
+// handlePing stores it only after the plugin chain and VerifyPing both accepted.
+func (svr *Service) VerifC15LastPing(runID string) time.Time {
+	ctl, ok := svr.ctlManager.GetByID(runID)
+	if !ok {
+		return time.Time{}
+	}
+	t, _ := ctl.lastPing.Load().(time.Time)
+	return t
+}
+
+// VerifC15HasSession reports whether a session is registered under runID.
+func (svr *Service) VerifC15HasSession(runID string) bool {
+	_, ok := svr.ctlManager.GetByID(runID)
+	return ok
+}
